@@ -69,6 +69,8 @@ def run_one(d, m):
     if src[m["line"] - 1] != m["old"]:
         return {"status": "stale"}
     src[m["line"] - 1] = m["new"]
+    if m.get("consume_next"):
+        del src[m["line"]]
     open(path, "w").write("\n".join(src))
     res = {"status": "survived", "runs": []}
     try:
